@@ -175,6 +175,19 @@ fn decrypt_chunks<T: Read, U: Write>(
     Ok(())
 }
 
+/// Verification hook: forwards to the private [`decrypt_chunks`] so that a
+/// harness can choose key, aad and chunk size.
+#[cfg(feature = "verif-hooks")]
+pub fn verif_decrypt_chunks<T: Read, U: Write>(
+    ciphertext: &mut T,
+    plaintext: &mut U,
+    key: &[u8],
+    aad: &[u8],
+    chunk_size: u32,
+) -> Result<(), DecryptError> {
+    decrypt_chunks(ciphertext, plaintext, key, aad, chunk_size)
+}
+
 /// Check if the given data conforms to one of the [`FileFormat`] types.
 pub fn valid_file_format(header: &[u8]) -> Result<FileFormat, FileFormatError> {
     let asym_v1 = [0x65, 0x67, 0x6b, 0x10];
